@@ -149,7 +149,9 @@ def run_C03(em, impl, tabs, rng, thorough):
                 continue
             got = gen.public_attrs(m3)
             changed = [a[0] for a, c in zip(base, got) if a != c]
-            if [a[0] for a in base] != [a[0] for a in got] or changed != [nm]:
+            # sign-magnitude "negative zero": flipping the sign bit of a zero magnitude legitimately changes nothing
+            negzero = t == "SNT" and raw & ((1 << (w - 1)) - 1) == 0 and bit == off
+            if [a[0] for a in base] != [a[0] for a in got] or (changed != [nm] and not (negzero and changed == [])):
                 em.violation("C03: changing the bits of plain field %s changes %s" % (nm, changed[:4]),
                              {"payload": b.payload.hex(), "flipped_bit": bit, "identity": b.ident}, {})
     em.samples = [{"identity": b.ident, "payload": b.payload.hex()[:120], "n_attrs": len(b.exp)} for b in blds[:3]]
